@@ -46,6 +46,14 @@ CHECKS["C02"] = (
     "DESIGN.md section 5 C02",
 )
 
+CHECKS["C03"] = (
+    "exploration",
+    "print->read inversion monitor: pr-str / lrepr output of generated values is re-read by the real reader and compared node by node (type-aware, NaN/-0.0 aware, metadata-aware), then re-printed (idempotence), under all 8 print-control combinations and several hash seeds",
+    "Held (apart from 4 recorded findings) on all strings to length 3 (thorough 4) over a 12-13 character escape alphabet, a float boundary table plus random bit patterns, all scalar kinds and thousands of random nested values with metadata. Exploration: the value universe is unbounded.",
+    "Trusted: the harness' structural equality; Decimals only required to round-trip with *print-dup*; reader-attached location metadata is stripped before metadata comparison and re-printing.",
+    "DESIGN.md section 5 C03",
+)
+
 NOT_BUILT ="check not built yet in this session (design in DESIGN.md section 5); not claimed until its monitor exists and is quiet on the unchanged tree"
 
 
